@@ -170,8 +170,6 @@ def ModelS.refBody (m : ModelS α) (id : Nat) : Nat :=
 def setCol (G : MatN α) (c : Nat) (vals : List α) : MatN α :=
   fun r c' => if c' = c ∧ r < vals.length then vals.getD r 0 else G r c'
 
-def SV.toList (x : SV α) : List α := [x.w.x, x.w.y, x.w.z, x.v.x, x.v.y, x.v.z]
-def V3.toList (x : V3 α) : List α := [x.x, x.y, x.z]
 
 /-- the walk `while (j != 0) { ...; j = lambda[j]; }` with fuel = number of bodies -/
 def walkUp {σ : Type} (m : ModelS α) (fuel : Nat) (j : Nat) (body : Nat → σ → σ) (s : σ) : σ :=
